@@ -264,9 +264,8 @@ theorem idx_zero {α} (a : α) (l : List α) (what : String) : idx (a :: l) 0 wh
 theorem readFirstLineInt_render (n : Nat) (h : (n : Int) ≤ int64Max) (more : List Str) :
     readFirstLineInt (renderNat n :: more) = .ok (n : Int) := by
   unfold readFirstLineInt
-  rw [idx_zero]
   have := stoll_renderNat n h [] nonDigitStart_nil
-  simpa [Res.bind] using this
+  simpa using this
 
 theorem renderNat_ne_max (n : Nat) : renderNat n ≠ maxStr := by
   intro e
